@@ -328,18 +328,15 @@ def cache_witness(res, scratch):
 def _sweep(res, tier, seed, rng, scratch):
     quick = tier == 'quick'
     corpus = c18_gen.corpus_jobs(common.REPO)
-    n_gen = 60 if quick else 600
-    n_broken = 12 if quick else 80
+    n_gen = 50 if quick else 600
+    n_broken = 10 if quick else 80
     generated = [c18_gen.gen_deck(rng) for _ in range(n_gen)]
     broken = [c18_gen.break_deck(rng, rng.choice(generated))
               for _ in range(n_broken)]
     jobs = corpus + generated + broken
-    hashseeds = [0, 1, 4242, 7] if quick else \
+    hashseeds = [0, 1, 4242] if quick else \
         [0, 1, 2, 3, 17, 4242, 65537, 4294967295]
-    if not quick:
-        hashseeds[3] = rng.randrange(4294967296)
-    else:
-        hashseeds[3] = rng.randrange(4294967296)
+    hashseeds[-1] = rng.randrange(4294967296)
     res.extra['sweep'] = {'corpus_decks': len(corpus),
                           'generated_decks': len(generated),
                           'broken_decks': len(broken),
@@ -378,7 +375,7 @@ def _sweep(res, tier, seed, rng, scratch):
                    'from a zygote that never converted)',
                    not worker_errors, '; '.join(worker_errors[:3]))
     # cold-started interpreters for a sample: must agree with the forked ones
-    n_cold = 16 if quick else 120
+    n_cold = 12 if quick else 120
     cold_items = [(n, rng.randrange(len(jobs)), rng.choice(hashseeds))
                   for n in range(n_cold)]
 
@@ -440,7 +437,7 @@ def _sweep(res, tier, seed, rng, scratch):
     res.extra['sweep']['converted_ok'] = n_ok
 
     # ---- warm processes: histories of 1-5 other conversions ----
-    n_hist = 24 if quick else 200
+    n_hist = 20 if quick else 200
     histories = []
     good = [k for k in range(len(jobs))
             if (k, hashseeds[0]) in fresh_res]
@@ -543,7 +540,7 @@ def observe(job):
 
 def model_tie(res, tier, rng, jobs, fresh_res, hashseeds):
     quick = tier == 'quick'
-    limit = 150 if quick else 1500
+    limit = 120 if quick else 1500
     order = list(range(len(jobs)))
     rng.shuffle(order)
     histories, current = [], []
